@@ -65,8 +65,9 @@ TAGS = ["iframe", "noembed", "noframes", "plaintext", "script", "style", "title"
 LOOK = "\t\n\f\r />"
 
 
-def call_html_to_nodes(text, img, adm, gfm, record=True):
-    """Call the real html_to_nodes with a mock renderer. Returns (observation string pieces, events)."""
+def call_html_to_nodes(text, img, adm, gfm, record=True, real_tok=False):
+    """Call the real html_to_nodes with a mock renderer. Returns (observation string pieces, events).
+    real_tok: leave tokenize_html as it is (no event recording) - needed to observe state kept between calls."""
     from unittest.mock import Mock
 
     from docutils import nodes
@@ -95,7 +96,8 @@ def call_html_to_nodes(text, img, adm, gfm, record=True):
             raise RuntimeError(exc)
         return root
 
-    M.tokenize_html = tok
+    if not real_tok:
+        M.tokenize_html = tok
     try:
         try:
             out = M.html_to_nodes(text, 0, renderer)
@@ -637,7 +639,10 @@ def check_conv(ctx, case):
         return False
 
     want_conv = all(convertible(e) for e in case["elems"])
-    impl, _ = call_html_to_nodes(text, img, adm, False, record=False)
+    # two-step history: earlier fragments of the same process (they may leave a tokenizer in a non-initial state)
+    for t in case.get("before", []):
+        call_html_to_nodes(t, img, adm, False, record=False, real_tok=True)
+    impl, _ = call_html_to_nodes(text, img, adm, False, record=False, real_tok="before" in case)
     if isinstance(impl, str) and impl.startswith("!"):
         ctx.fail("exception:" + impl[1:] + ":html_to_nodes", {**case, "text": text}, "html_to_nodes raised " + impl)
         return False
@@ -690,6 +695,33 @@ def check_block_values(ctx, case, content):
     return True
 
 
+# Markdown that hands the HTML tokenizer a fragment ending in a non-initial state (CDATA content mode after <script> / <style>,
+# inside a start tag, inside a comment / declaration / processing instruction), and harmless controls.  None of them
+# contains an <img> or an admonition, so a later fragment must convert exactly as when it is parsed alone.
+DIRTY_MD = ["Use the <style> element for that.", "An inline <script> tag is mentioned here.", "> <script>\n> var a = 1;",
+            "> <style>\n> p { color: red }", "- <section", "- item\n\n  <div class=\"x", "a <b c=\"d", "1. <table",
+            "text <script>x", "plain *text*", "<span>x</span> inline", "> quote", "`<style>` in code"]
+# whole earlier documents / fragments (may swallow the rest of their document)
+DIRTY_DOC = DIRTY_MD + ["<style>\np {}", "<!-- open comment", "<?pi open", "<![CDATA[ open", "<!DOCTYPE html", "<script>\nvar a = '<img src=\"x\">'",
+                        "x &amp", "<a href='q", "</di"]
+DIRTY_FRAGMENT = ["<style>", "<script>", "<script>var a = 1;", "<style>p {", "<section", "<div class=\"x", "<a href='", "<!-- open",
+                  "<![CDATA[ open", "<?pi", "</di", "x &", "&#12", "<", "<span>ok</span>", "text", "<script>x</script>"]
+
+
+def run_history(case):
+    """earlier documents of the same process"""
+    for t in case.get("before", []):
+        try:
+            pipeline(t + "\n", True, True)
+        except Exception:  # noqa: BLE001
+            pass
+
+
+def same_doc_prefix(case):
+    p = case.get("prefix", "")
+    return p + "\n\n" if p else ""
+
+
 def image_attrs(doc):
     from docutils import nodes
     out = []
@@ -703,7 +735,8 @@ def check_img(ctx, case):
     """<img ...> document vs the {image} directive document: same image node attributes"""
     attrs = [tuple(a) for a in case["attrs"]]
     src = dict(attrs)["src"]
-    doc_a, ws_a = pipeline(img_html(attrs) + "\n", True, case.get("adm", False))
+    run_history(case)
+    doc_a, ws_a = pipeline(same_doc_prefix(case) + img_html(attrs) + "\n", True, case.get("adm", False))
     keys = ["align", "alt", "class", "height", "name", "width"]
     opts = [(k, v) for k, v in sorted(dict(attrs).items()) if k in keys]
     text_b = "```{image} %s\n" % src + "".join(":%s: %s\n" % (k, yaml_dq(v or "")) for k, v in opts) + "```\n"
@@ -711,14 +744,14 @@ def check_img(ctx, case):
     from lib.impl import parse_warnings
     wa = sorted((w["tag"] or "", re.sub(r"\d+", "N", w["msg"])[:60]) for w in parse_warnings(ws_a))
     wb = sorted((w["tag"] or "", re.sub(r"\d+", "N", w["msg"])[:60]) for w in parse_warnings(ws_b))
-    if wa != wb:
+    if wa != wb and not (case.get("before") or case.get("prefix")):
         ctx.fail("img:warnings-differ-from-directive", case, "<img> and the equivalent {image} directive give different warnings",
                  wb, wa)
         return False
     a, b = image_attrs(doc_a), image_attrs(doc_b)
     if a != b or len(a) != 1:
         bad = [k for k, v in opts if dict(a[0] if a else []).get(k) != dict(b[0] if b else []).get(k)] if a and b else ["?"]
-        ctx.fail("img:differs-from-directive:" + (bad[0] if bad else "node"), case,
+        ctx.fail(("history:" if case.get("before") or case.get("prefix") else "") + "img:differs-from-directive:" + (bad[0] if bad else "node"), case,
                  "<img> gives other image attributes than the equivalent {image} directive", b, a)
         return False
     return True
@@ -745,11 +778,12 @@ def check_adm(ctx, case):
     if name is not None:
         b_text += ":name: %s\n" % yaml_dq(name)
     b_text += "\n" + body + "\n~~~\n"
-    doc_a, _ = pipeline(a_text, case.get("img", False), True)
+    run_history(case)
+    doc_a, _ = pipeline(same_doc_prefix(case) + a_text, case.get("img", False), True)
     doc_b, _ = pipeline(b_text, False, True)
     a, b = adm_nodes(doc_a), adm_nodes(doc_b)
     if a != b or len(a) != 1:
-        ctx.fail("adm:differs-from-directive", case, "<div class=admonition> differs from the equivalent {admonition} directive",
+        ctx.fail(("history:" if case.get("before") or case.get("prefix") else "") + "adm:differs-from-directive", case, "<div class=admonition> differs from the equivalent {admonition} directive",
                  b, a)
         return False
     return True
@@ -836,6 +870,9 @@ SEED_CASES = [
     {"kind": "adm", "title": None, "cls": "admonition", "name": None, "paras": ["<em>a</em> <strong>b</strong>"], "tail": ""},
     {"kind": "conv", "elems": [{"what": "div", "tag": "div", "cls": "note admonition-title"}], "sep": "\n", "img": True, "adm": True},
     {"kind": "conv", "elems": [{"what": "img", "tag": "imgx", "cls": None}], "sep": "\n", "img": True, "adm": True},
+    {"kind": "conv", "elems": [{"what": "img", "tag": "img", "cls": None}], "sep": "\n", "img": True, "adm": True, "before": ["<style>"]},
+    {"kind": "img", "attrs": [["src", "a.png"], ["alt", "x"]], "prefix": "Use the <style> element for that."},
+    {"kind": "adm", "title": "T", "cls": "admonition", "name": None, "paras": ["para **b**"], "tail": "", "before": ["- <section"]},
     {"kind": "adm", "title": "T", "cls": "admonition", "name": None, "paras": [], "tail": "only line", "ttag": "div",
      "tcls": "admonition-title", "indent": "    "},
     {"kind": "raw", "text": "<div class=\"admonition\">\n<input disabled>\n</div>\n<span>x</span>\n"},
@@ -891,6 +928,24 @@ def search(ctx):
                 "indent": rng.choice(["", "", "  ", "    ", "\t"])}
         if not case["paras"] and not case["tail"]:
             case["tail"] = "only line"          # an admonition without body is an error on both sides
+        if run(case):
+            return
+    # two-step histories: an earlier fragment (same document / earlier document / earlier direct call) must not change how a
+    # later <img> / admonition converts
+    for i in range(ctx.budget(1500, 15000, 15000)):
+        case = gen_conv(rng)
+        case["before"] = [rng.choice(DIRTY_FRAGMENT) for _ in range(rng.choice([1, 1, 2]))]
+        if run(case):
+            return
+    for i in range(ctx.budget(120, 1200, 1200)):
+        hist = {"prefix": rng.choice(DIRTY_MD)} if i % 2 == 0 else {"before": [rng.choice(DIRTY_DOC) for _ in range(rng.choice([1, 2]))]}
+        if i % 4 < 2:
+            case = {"kind": "img", "attrs": [["src", rng.choice(["a.png", "img/b.jpg"])]] + rng.choice([[], [["alt", "an *alt*"]], [["width", "30%"], ["class", "a b"]]]),
+                    "adm": rng.random() < 0.5, **hist}
+        else:
+            case = {"kind": "adm", "title": rng.choice([None, "T", "A *title* here"]), "cls": rng.choice(["admonition", "admonition tip"]),
+                    "name": rng.choice([None, "n1"]), "paras": [rng.choice(["para **b**", "<em>a</em> <strong>b</strong>"])],
+                    "tail": rng.choice(["", "rest of it"]), "img": rng.random() < 0.5, **hist}
         if run(case):
             return
     for i in range(ctx.budget(100, 800, 800)):
